@@ -20,7 +20,8 @@ EXPLANATION = (
     "gz_zero, gzputc, gzvprintf in K5) every `pos += d` has `stream.avail_in += d` or `= d` beside it and vice versa. LOOK: gz_look "
     "examines the k+1 magic bytes only under `avail_in > k`, and every path to a format verdict (writes of how/eof/direct) either "
     "crossed an `avail_in >= 2` edge or went through the gz_avail refill. Everything else of the gz layer (buffer contents, member "
-    "chaining, gzseek arithmetic, file contents) is not decided.")
+    "chaining, gzseek arithmetic, file contents) is not decided. "
+    "ORDER/compact-then-repoint: gz_avail copies the unconsumed input from the old next_in before it re-points next_in.")
 
 CLAIM = dict(
     text="Static sibling rule over the gz entry points (same admission tests before the first effect) and cut-set proofs that a "
